@@ -11,23 +11,35 @@ Theorem C19_clean_rooted : forall p : bytes,
 Proof. exact clean_rooted. Qed.
 Print Assumptions C19_clean_rooted.
 
-(* the file that is opened lies in frontend/dist, whatever the request *)
+(* the NAME that is opened lies in frontend/dist, whatever the request *)
 Theorem C19_inside : forall req : bytes, inside (resolve req) = true.
 Proof. exact resolve_inside. Qed.
 Print Assumptions C19_inside.
 
-(* never a directory listing; a directory is never answered with content *)
+(* the fuel of the link resolution is enough: no answer exists "because fuel ran out" *)
+Theorem C19_walk_fuel_enough : forall (t : tree) (comps : list bytes), os_walk t comps <> WFuel.
+Proof. exact walk_fuel_enough. Qed.
+Print Assumptions C19_walk_fuel_enough.
+
+(* never a directory listing, whatever the request resolves to: a directory
+   - reached directly or through links - is never answered with content, and
+   content means that the resolution (all links followed) ended at a regular
+   file with exactly these bytes *)
 Theorem C19_no_listing : forall (t : tree) (m : muxd) (dec : bytes),
   serve_at t m dec <> Listing /\
-  (lookup (resolve dec) t = Some Dir -> content (serve_at t m dec) = None).
+  (forall at_, os_resolve t (resolve dec) = WNode at_ Dir -> content (serve_at t m dec) = None) /\
+  (forall b, content (serve_at t m dec) = Some b ->
+             exists at_, os_resolve t (resolve dec) = WNode at_ (Reg b)).
 Proof. exact no_listing. Qed.
 Print Assumptions C19_no_listing.
 
-(* a File answer carries exactly the bytes of the regular file at [resolve dec]
-   (inside dist); every other answer carries no file content *)
+(* a File answer carries exactly the bytes of the regular file that the OS
+   finds, all links followed, at the name [resolve dec] (a name inside dist);
+   every other answer carries no file content *)
 Theorem C19_only_file_bytes : forall (t : tree) (m : muxd) (dec : bytes),
   match serve_at t m dec with
-  | File b => lookup (resolve dec) t = Some (Reg b) /\ inside (resolve dec) = true
+  | File b => (exists at_, os_resolve t (resolve dec) = WNode at_ (Reg b)) /\
+              inside (resolve dec) = true
   | Listing => False
   | Redirect | NotFound | ServerError | BadRequest => True
   end.
@@ -38,16 +50,39 @@ Print Assumptions C19_only_file_bytes.
 Theorem C19_only_file_bytes_raw : forall (t : tree) (raw : bytes),
   match serve t raw with
   | File b => exists dec, pct_decode raw = Some dec /\
-                          lookup (resolve dec) t = Some (Reg b) /\ inside (resolve dec) = true
+                          (exists at_, os_resolve t (resolve dec) = WNode at_ (Reg b)) /\
+                          inside (resolve dec) = true
   | Listing => False
   | Redirect | NotFound | ServerError | BadRequest => True
   end.
 Proof. exact raw_only_file_bytes. Qed.
 Print Assumptions C19_only_file_bytes_raw.
 
-(* not vacuous the other way: a regular file below dist is served *)
-Theorem C19_serves : forall (t : tree) (dec b : bytes),
-  lookup (resolve dec) t = Some (Reg b) -> has_nul (resolve dec) = false ->
+(* F-C19-b: "the served file lies inside dist" is FALSE of the faithful model
+   when a link leaves dist ... *)
+Theorem C19_file_outside_refuted :
+  exists t dec b at_,
+    dom_C19 t = false /\ serve_at t MuxPass dec = File b /\
+    os_resolve t (resolve dec) = WNode at_ (Reg b) /\ ~ below_dist at_.
+Proof. exact file_outside_refuted. Qed.
+Print Assumptions C19_file_outside_refuted.
+
+(* ... and holds on the domain [dom_C19] (no link target is absolute or has a
+   ".." component): there the served regular file lies physically inside dist *)
+Theorem C19_only_file_bytes_partial : forall (t : tree) (m : muxd) (dec : bytes),
+  dom_C19 t = true ->
+  match serve_at t m dec with
+  | File b => exists at_, os_resolve t (resolve dec) = WNode at_ (Reg b) /\ below_dist at_
+  | Listing => False
+  | Redirect | NotFound | ServerError | BadRequest => True
+  end.
+Proof. exact only_file_bytes_confined. Qed.
+Print Assumptions C19_only_file_bytes_partial.
+
+(* not vacuous the other way: a regular file below dist is served, also when
+   the name is, or leads through, a link *)
+Theorem C19_serves : forall (t : tree) (dec b : bytes) (at_ : loc),
+  os_resolve t (resolve dec) = WNode at_ (Reg b) -> has_nul (resolve dec) = false ->
   suffixb index_page (rooted dec) = false -> ends_slash (rooted dec) = false ->
   handler t dec = File b.
 Proof. exact handler_serves. Qed.
